@@ -280,6 +280,7 @@ CLAIMED["C05"] = {
             "in the single-target regression metrics every sum or difference combines terms of the same homogeneity degree in the data (a dimensional analysis over the provided trait methods: prediction and truth have degree 1, products add and quotients subtract degrees, literals below 1e-6 are regularisers) - explained_variance of the pinned tree subtracts the mean error from a sum of squares (known finding with the failing input); "
             "the axis of the confusion matrix that is filled from the prediction (read off map_prediction_to_idx, its call and the indexing of the increment) is the one the binary precision fixes, the binary recall fixes the other, and split_one_vs_all takes the false positives from the prediction's line - binary precision and recall of the pinned tree fix the wrong axes, i.e. are exchanged (two known findings with the failing input); "
             "every (prediction, truth) pair adds exactly one to one cell of a square matrix over the class list, both indices looked up in one class map; accuracy is trace over total; split_one_vs_one enumerates the pairs i < j (it included the diagonal: repaired). "
+            "every forwarding impl of ToConfusionMatrix keeps the roles - its receiver stays the prediction, its argument the ground truth (the impl for an array against a dataset exchanges them: known finding with the failing input); "
             "median_absolute_error reads the middle position(s) of a *fully sorted* error sequence (a selection around one position does not order its neighbours); no sum or difference in the metric code has the same operand on both sides (a trapezoid uses both end points); the class list of a confusion matrix over a dataset is the key set of a label-count cache that starts empty (shared with C02). "
             "Not decided: the numerical definitions themselves - MCC, F-beta, ROC / AUC and its treatment of ties and of the first threshold, log-loss, the regression formulas beyond their degrees, silhouette, Pearson, permutation invariance.",
     "design_ref": "DESIGN.md section 4, C05",
